@@ -1,5 +1,6 @@
 from typing import Optional, Tuple, Type, Union
 
+import numpy as np
 import torch
 from gymnasium import spaces
 
@@ -319,9 +320,12 @@ class StochasticActor(EvolvableNetwork):
         :return: Scaled action.
         :rtype: torch.Tensor
         """
-        return self.action_low + (
-            0.5 * (action + 1.0) * (self.action_high - self.action_low)
-        )
+        low, high = self.action_low, self.action_high
+        if isinstance(action, np.ndarray):
+            # The training loops and get_action pass the numpy action they store
+            low, high = low.cpu().numpy(), high.cpu().numpy()
+
+        return low + (0.5 * (action + 1.0) * (high - low))
 
     def forward(
         self, obs: TorchObsType, action_mask: Optional[ArrayOrTensor] = None
